@@ -188,7 +188,7 @@ func genSeqCase(t *rapid.T) SeqCase {
 
 func TestSequences(t *testing.T) {
 	pbt.Run(t, pbt.Sub[SeqCase]{
-		Name: "sequences", Quick: 30000, Thorough: 600000,
+		Name: "sequences", Quick: 30000, Thorough: 300000,
 		Gen: genSeqCase, Check: checkSeq,
 	})
 }
